@@ -159,6 +159,15 @@ def in_autobahn(tb_exc):
     return "/autobahn/" in tb[-1].filename.replace("\\", "/")
 
 
+def via_autobahn(exc):
+    """does any frame of this exception's traceback lie inside the autobahn package (and none after it in the harness)?"""
+    tb = traceback.extract_tb(exc.__traceback__)
+    names = [fr.filename.replace("\\", "/") for fr in tb]
+    last_ab = max((i for i, n in enumerate(names) if "/autobahn/" in n), default=-1)
+    last_harness = max((i for i, n in enumerate(names) if "/verif/" in n), default=-1)
+    return last_ab > last_harness
+
+
 def exc_key(exc):
     tb = traceback.extract_tb(exc.__traceback__)
     where = "?"
